@@ -53,6 +53,13 @@ def sem(chain, data, probe_ok):
             ok, lv = sem(chain[1], b"", probe_ok)
             return False, [None] * len(lv)
         return sem(chain[1], d, probe_ok)
+    if k == "jwedec":
+        # content decryption stream: the genuine ciphertext gives the plaintext, anything else fails at done
+        a = chain[1]
+        if data.hex() == a["_ct"]:
+            return sem(chain[2], bytes.fromhex(a["_pt"]), probe_ok)
+        ok, lv = sem(chain[2], b"", probe_ok)
+        return False, [None] * len(lv)
     if k == "plex":
         res = [sem(c, data, probe_ok) for c in chain[2]]
         oks = [r[0] for r in res]
@@ -127,7 +134,7 @@ def canon(op, args, r):
     if not isinstance(r, dict) or "leaves" not in r:
         return r
     verdict = all(r["feeds"]) and r["done"] is True
-    exact = not any(k in json.dumps(args["chain"]) for k in ('"hash"', '"inflate"', '"deflate"'))
+    exact = not any(k in json.dumps(args["chain"]) for k in ('"hash"', '"inflate"', '"deflate"', '"jwedec"'))
     if exact:
         return r
     # transformer stages: verdict, and sink contents on success (for probes: the bytes received,
@@ -227,7 +234,7 @@ def gen_small(ctx):
 
 
 def has_xform(chain):
-    return any(k in json.dumps(chain) for k in ('"hash"', '"inflate"', '"deflate"'))
+    return any(k in json.dumps(chain) for k in ('"hash"', '"inflate"', '"deflate"', '"jwedec"'))
 
 
 def tame_probes(chain):
@@ -353,6 +360,52 @@ def gen_failures(ctx):
     return ops
 
 
+def gen_cipher(ctx):
+    """the content-decryption stream (AES-GCM, AES-CBC-HMAC, with and without inflate behind it) in front of every
+    kind of downstream chain: stages that buffer until done, bounded sinks, multiplexers, failing sinks; plaintext
+    lengths around the cipher block size (a final block that is pure padding included); every chunking class"""
+    import jwegen as E
+    rng = ctx.rng
+    lens = [0, 1, 15, 16, 17, 31, 32, 33, 48, 100] + ([4096, 70000] if ctx.tier == "thorough" else [1000])
+    mk = []
+    for enc in E.ENCS:
+        cek = {"kty": "oct", "k": ref_enc(rng.randbytes(E.CEKLEN[enc])).decode()}
+        for zip_ in (False, True):
+            for n in lens:
+                pt = rng.randbytes(n) if not zip_ else bytes(rng.choice(b"ab") for _ in range(n))
+                prot = {"enc": enc}
+                if zip_:
+                    prot["zip"] = "DEF"
+                mk.append(("jwe.enc_cek", {"jwe": {"protected": prot}, "cek": cek, "pt": pt.hex(), "rand": rng.randbytes(32).hex()}))
+    ops = []
+    for (o, a), r in zip(mk, ctx.real(mk)):
+        if not r.get("ok"):
+            ctx.pfails.append(("io:setup", "content encryption refused", o, a, r))
+            continue
+        tok = r["jwe"]
+        ct = ref_dec(tok["ciphertext"].encode())
+        pt = bytes.fromhex(a["pt"])
+        head = {"jwe": {k: v for k, v in tok.items() if k != "ciphertext"}, "cek": a["cek"], "_pt": pt.hex(), "_ct": ct.hex()}
+        need = ref_len(len(pt))
+        downs = [["malloc"], ["b64enc", ["malloc"]], ["b64enc", ["buffer", need]], ["b64enc", ["buffer", max(need - 1, 0)]], ["buffer", len(pt)],
+                 ["buffer", max(len(pt) - 1, 0)], ["probe", None], ["probe", 0], ["plex", True, [["malloc"], ["b64enc", ["b64dec", ["malloc"]]]]],
+                 ["plex", False, [["buffer", 0], ["b64enc", ["file"]]]], ["hash", "S256", ["b64enc", ["malloc"]]], ["deflate", ["inflate", ["b64enc", ["malloc"]]]]]
+        if ctx.tier == "quick" and len(pt) not in (0, 16, 17, 32):
+            downs = rng.sample(downs, 4)
+        for dn in downs:
+            ch = ["jwedec", head, dn]
+            chunkings = [[len(ct)], [1] * len(ct) if len(ct) <= 200 else rand_parts(rng, len(ct), [16]), rand_parts(rng, len(ct), [15, 16, 17])]
+            for parts in chunkings:
+                ops.append(("io.run", {"chain": ch, "feeds": with_empties(rng, split(ct, parts)) if rng.random() < 0.3 else split(ct, parts)}))
+        if ct:
+            bad = bytearray(ct)
+            bad[rng.randrange(len(bad))] ^= 1
+            ops.append(("io.run", {"chain": ["jwedec", head, ["b64enc", ["malloc"]]], "feeds": split(bytes(bad), rand_parts(rng, len(bad), [16]))}))
+            ops.append(("io.run", {"chain": ["jwedec", head, ["malloc"]], "feeds": split(ct[:-1], rand_parts(rng, len(ct) - 1, [16])) or [""]}))
+    ctx.count("cipher-chains", len(ops))
+    return ops
+
+
 def ref_len(n):
     return len(ref_enc(b"\0" * n))
 
@@ -384,7 +437,7 @@ def group_check(ctx, ops, real):
 
 
 def run(ctx):
-    for gen in (gen_small, gen_random, gen_long, gen_failures):
+    for gen in (gen_small, gen_random, gen_long, gen_failures, gen_cipher):
         ops = gen(ctx)
         for i in range(0, len(ops), 200000):
             chunk = ops[i:i + 200000]
